@@ -234,7 +234,11 @@ func runOnce(c *hlib.Ctx, s *choice.Stream, freezeClock bool) *hlib.Run {
 	}
 
 	// ---- workload ----------------------------------------------------------
-	precomputed := s.Draw(3, "mode-precomputed") == 0
+	// crowd runs: many callers with one call each on values that resemble each
+	// other (resource limits shared by all calls of a process only bite when
+	// enough goroutines with real work are in flight)
+	crowd := s.Draw(12, "crowd") == 0
+	precomputed := s.Draw(3, "mode-precomputed") == 0 && !crowd
 	threshold := []float64{0.5, 0.8, 0.8, 0.9}[s.Draw(4, "threshold")]
 	vals := map[string]string{}
 	var baseKeys []string
@@ -253,9 +257,14 @@ func runOnce(c *hlib.Ctx, s *choice.Stream, freezeClock bool) *hlib.Run {
 		sort.Strings(baseKeys)
 	} else {
 		n := 1 + s.Draw(6, "n-values")
+		if crowd {
+			n = 4 + s.Draw(4, "n-values-crowd")
+		}
 		for i := 0; i < n; i++ {
 			k := fmt.Sprintf("val%d", i)
-			if s.Draw(3, "value-real") == 0 {
+			if crowd && i > 0 {
+				vals[k] = editWords(s, vals[baseKeys[0]], 1+s.Draw(3, "derive-edits"))
+			} else if s.Draw(3, "value-real") == 0 {
 				lt := smallLicenses[s.Draw(len(smallLicenses), "license")]
 				vals[k] = lt.text
 			} else if i > 0 && s.Draw(4, "value-derived") == 0 {
@@ -285,7 +294,11 @@ func runOnce(c *hlib.Ctx, s *choice.Stream, freezeClock bool) *hlib.Run {
 	queries := make([]string, nq)
 	for i := range queries {
 		k := allKeys[s.Draw(len(allKeys), "query-from")]
-		switch s.Draw(6, "query-kind") {
+		qk := s.Draw(6, "query-kind")
+		if crowd {
+			qk = s.Draw(2, "query-kind-crowd")
+		}
+		switch qk {
 		case 0:
 			queries[i] = vals[k]
 		case 1:
@@ -305,12 +318,24 @@ func runOnce(c *hlib.Ctx, s *choice.Stream, freezeClock bool) *hlib.Run {
 
 	// tasks and their operations
 	ntasks := 2 + s.Draw(5, "n-tasks")
+	maxOps := 24
+	if crowd {
+		ntasks = 24 + s.Draw(80, "n-tasks-crowd")
+		maxOps = 110
+	}
 	plan := make([][]*op, ntasks)
 	nops := 0
 	for t := range plan {
-		for j := 0; j < 1+s.Draw(4, "ops-per-task") && nops < 24; j++ {
+		opsHere := 1 + s.Draw(4, "ops-per-task")
+		if crowd {
+			opsHere = 1
+		}
+		for j := 0; j < opsHere && nops < maxOps; j++ {
 			o := &op{task: t}
 			k := s.Pick([]int{5, 3, 3}, "op-kind")
+			if crowd && k == 1 && s.Draw(3, "crowd-mostly-multiple") != 0 {
+				k = 0
+			}
 			if k == 2 && (precomputed || len(newKeys) == 0) {
 				k = s.Draw(2, "op-kind2")
 			}
@@ -473,6 +498,12 @@ func runOnce(c *hlib.Ctx, s *choice.Stream, freezeClock bool) *hlib.Run {
 		mode = "precomputed"
 	}
 	out.Counters["runs_mode_"+mode]++
+	if crowd {
+		out.Counters["runs_crowd"]++
+	}
+	if rep.Tasks >= 64 {
+		out.Counters["probe_64_or_more_tasks"]++
+	}
 	for _, t := range plan {
 		for _, o := range t {
 			out.Counters[[]string{"op_MultipleMatch", "op_NearestMatch", "op_AddValue"}[o.kind]]++
@@ -642,10 +673,12 @@ func describePlan(plan [][]*op) []string {
 }
 
 func deadlockClass(d string) string {
-	// sites only
+	// distinct blocking sites only (the number of blocked tasks varies)
+	seen := map[string]bool{}
 	var sites []string
 	for _, part := range strings.Split(d, "; ") {
-		if i := strings.LastIndex(part, " at "); i >= 0 {
+		if i := strings.LastIndex(part, " at "); i >= 0 && !seen[part[i+4:]] {
+			seen[part[i+4:]] = true
 			sites = append(sites, part[i+4:])
 		}
 	}
@@ -676,6 +709,10 @@ func main() {
 		Property: "C14",
 		Setup:    setup,
 		Run:      run,
+		// every run in a fresh process: package-level state of the library (for
+		// instance a package-level channel used as a semaphore, whose tokens a
+		// deadlocked run never returns) must not leak into the next run
+		Isolate: true,
 		Info: func() map[string]any {
 			return map[string]any{
 				"real_code":  []string{"stringclassifier, internal/pq, internal/sets, searchset, tokenizer, root licenseclassifier package, serializer: re-compiled from the tree under test after source instrumentation", "go-diff: instrumented for yields and the clock only", "regexp, gob, tar, gzip, container/heap, sort: real, uninstrumented"},
